@@ -20,10 +20,20 @@ What is proved:
     the grammar, and only the parser side of the round trip rests on the differential check;
   * the full statement is FALSE of the scanner as it is written, on two concrete witnesses
     (`C05_empty_regex_counterexample`, `C05_nonascii_text_counterexample`), both replayed on /repo by the
-    harness (open findings `C05/empty-matching-regex`, `C05/nonascii-text-next-to-binary`).
+    harness (open findings `C05/empty-matching-regex`, `C05/nonascii-text-next-to-binary`);
+  * the repetition cap (§5, `Model/RepCap.lean`): the generator caps every open-ended repetition at the grammar's
+    current cap `c`, the parser compiles `{n,}` (not `*`, `+`) with the cap `c0` it read when it was built.
+    `C05_generated_within_parser_cap`: while `c ≤ c0` every derivation the generator can produce is a derivation
+    of the language the parser's helper rules spell out, which is inside the documented language
+    (`C05_parser_cap_within_language`); `C05_open_repetition_cap_counterexample`: once the tuner has raised
+    `c` above `c0` (20 → 30) this fails — 21 iterations of `("a"){2,}` are generated and documented, and outside
+    the parser's language, while the same word is inside it for `"a"+`.  Replayed on /repo by the harness (open
+    finding `C05/open-repetition-capped`; the witness class is decided by `capValid`, `C05_capValid_iff`).
 -/
 import Proofs.Enum
 import Proofs.Incremental
+import Proofs.RepCap
+import Proofs.IRFast
 namespace FV
 namespace Enum
 
@@ -220,4 +230,57 @@ theorem C05_nonascii_text_counterexample :
   refine ⟨by decide +kernel, by decide +kernel, by decide +kernel⟩
 
 end Incr
+
+/-! ## 5. the repetition cap: generator language vs parser language vs documented language -/
+
+namespace RepCap
+
+/-- the decision procedure the driver runs: is the tree a derivation once the selected open-ended repetitions
+    are capped at `c`? -/
+def capValid (sel : Sel) (c : Nat) (G : Grammar) (R : RegexOracle) (t : Tree) : Bool :=
+  validFast (capGrammar sel c G) R t
+
+theorem C05_capValid_iff (sel : Sel) (c : Nat) (G : Grammar) (R : RegexOracle) (t : Tree) :
+    capValid sel c G R t = true ↔ Valid (capGrammar sel c G) R t :=
+  validFast_iff (capGrammar sel c G) R t
+
+/-- While the generator's cap `c` does not exceed the cap `c0` the parser was compiled with, everything the
+    generator can derive (all open-ended repetitions `≤ c`) is a derivation of the parser's language (`{n,}`
+    bounded by `c0`, `*` and `+` unbounded). -/
+theorem C05_generated_within_parser_cap (G : Grammar) (R : RegexOracle) (c c0 : Nat) (h : c ≤ c0) (t : Tree)
+    (hv : Valid (capGrammar selAll c G) R t) : Valid (capGrammar selBraces c0 G) R t :=
+  valid_mono G R (fun _ _ => ⟨rfl, h⟩) t hv
+
+/-- the parser's language and the generator's language are inside the documented (uncapped) language -/
+theorem C05_parser_cap_within_language (G : Grammar) (R : RegexOracle) (sel : Sel) (c : Nat) (t : Tree)
+    (hv : Valid (capGrammar sel c G) R t) : Valid G R t := by
+  have := valid_mono G R (sel := sel) (sel' := selNone) (c := c) (c' := 0)
+    (fun k hk => by simp [selNone] at hk) t hv
+  rwa [capGrammar_none] at this
+
+/-- `<start> ::= ("a"){2,} "b"` and `<start> ::= "a"+ "b"` -/
+def capG : Grammar := ⟨[("<start>", .cat "c0" [.rep "r0" .braces (.term (.lit (.text [97]))) 2 none,
+  .term (.lit (.text [98]))])]⟩
+def capGplus : Grammar := ⟨[("<start>", .cat "c0" [.rep "r0" .plus (.term (.lit (.text [97]))) 1 none,
+  .term (.lit (.text [98]))])]⟩
+def noRe : RegexOracle := fun _ _ => false
+/-- `k` iterations: `a`×k `b` -/
+def capTree (k : Nat) : Tree :=
+  .node "<start>" (List.replicate k (Tree.leaf (.text [97])) ++ [Tree.leaf (.text [98])])
+
+/-- non-vacuity of `C05_generated_within_parser_cap` (20 iterations, caps 20/20), and its failure once the tuner
+    has raised the generator's cap to 30 while the parser still has 20: the tree with 21 iterations is a
+    derivation of the grammar, the generator can produce it, the parser's language does not contain it — and
+    does contain the same word when the rule is written with `+`. -/
+theorem C05_open_repetition_cap_counterexample :
+    capValid selAll 20 capG noRe (capTree 20) = true ∧ capValid selBraces 20 capG noRe (capTree 20) = true ∧
+    validFast capG noRe (capTree 21) = true ∧
+    capValid selAll 30 capG noRe (capTree 21) = true ∧
+    capValid selBraces 20 capG noRe (capTree 21) = false ∧
+    capValid selBraces 20 capGplus noRe (capTree 21) = true ∧
+    capValid selAll 20 capGplus noRe (capTree 21) = false := by
+  refine ⟨by decide +kernel, by decide +kernel, by decide +kernel, by decide +kernel, by decide +kernel,
+    by decide +kernel, by decide +kernel⟩
+
+end RepCap
 end FV
